@@ -91,11 +91,15 @@ impl Excl {
     pub fn none() -> Self {
         Self { small_int_ge_2p63: false, ctor_cast: false, atomics_shrink: false, atomics_store_huge: false, resize_fixed_bad_index: false, sab_zero_slice: false }
     }
+    /// The default: exclusions of the findings that are still open (a, b, e, f are fixed in /repo and checked again).
+    pub fn open() -> Self {
+        Self { small_int_ge_2p63: false, ctor_cast: false, resize_fixed_bad_index: false, sab_zero_slice: false, ..Self::all() }
+    }
     pub fn from_env() -> Self {
         match std::env::var("BV_C15_NOEXCL") {
             Ok(s) if s == "1" || s == "all" => Self::none(),
             Ok(s) => {
-                let mut e = Self::all();
+                let mut e = Self::open();
                 for p in s.split(',') {
                     match p {
                         "a" => e.small_int_ge_2p63 = false,
@@ -109,7 +113,7 @@ impl Excl {
                 }
                 e
             }
-            Err(_) => Self::all(),
+            Err(_) => Self::open(),
         }
     }
 }
